@@ -123,7 +123,12 @@ class Built:
 
         h_pol, h_call = trio("handler", env.make_handler)
         b_pol, b_call = trio("before_sleep", lambda w: env.make_before_sleep(w, bs_async))
-        s_pol, s_call = trio("sleeper", lambda w: env.make_sleeper(w, sl_kind))
+        def mk_sleeper(w):
+            sl = env.make_sleeper(w, sl_kind)
+            # a sleeper *object* that is also an (empty) container (e.g. a recorder deriving from list): falsy, callable
+            return _SizedCallable(sl) if place.get("sleeper_shape") == "sized" else sl
+
+        s_pol, s_call = trio("sleeper", mk_sleeper)
         a_pol_s, a_call_s = _pick(place.get("att_hooks", "none"), env.make_attempt_hook("policy", "start"),
                                   env.make_attempt_hook("call", "start"))
         a_pol_e, a_call_e = _pick(place.get("att_hooks", "none"), env.make_attempt_hook("policy", "end"),
